@@ -111,8 +111,9 @@ static Input gen_input(Tape &t, ox::CurveId c) {
     // bytes.  No hash the API documents is that long, so such inputs are outside the domain (counted when clipped).
     if (c == ox::P521 && len > 65) len = 65;
     in.digest = tape_bytes(t, len < 12 ? len : 12); in.digest.resize(len, 0xC3);
-    if (t.below(8) == 0) in.digest.assign(len, 0xFF);     // e >= n
-    if (t.below(16) == 0) in.digest.assign(len, 0x00);    // e == 0
+    switch (t.below(16)) { case 14: case 13: in.digest.assign(len, 0xFF); break;      // e >= n
+                           case 15: in.digest.assign(len, 0x00); break;               // e == 0 (mod n)
+                           default: break; }
     return in;
 }
 static int pick_entry(Tape &t, const Input &in) { int e = (int) t.below(E_COUNT); if (e == E_VERIFY_PREHASH && !in.hashed) e = E_DSAVERIFY; return e; }
@@ -239,8 +240,21 @@ static void prop_der(Tape &t, Ctx &c) {
     KeyHolder kh(pick_key(t)); EKey *k = kh.k;
     Input in = gen_input(t, k->c);
     ox::Sig sg; VF_CHECK(ox::ecdsa_sign(k->ok, in.digest, sg), "harness", "openssl sign");
-    int mode = (int) t.below(5); int entry = pick_entry(t, in); bool use_pub = t.coin();
+    int mode = (int) t.below(6); int entry = pick_entry(t, in); bool use_pub = t.coin();
     c.count(fmt("der:mode%d", mode)); c.count(std::string("curve:") + ox::curve_name(k->c));
+    if (mode == 5) {
+        // every proper prefix of the SEC1 private key DER in an exact-size heap buffer
+        B der = ox::ec_priv_der(k->ok); bool with_curve = t.coin();
+        for (size_t L = 0; L < der.size(); L++) {
+            Exact d(der.data(), L); psEccKey_t key; memset(&key, 0, sizeof key);
+            int32_t rc = psEccParsePrivKey(NULL, d.p, (psSize_t) L, &key, with_curve ? mx_curve(k->c) : NULL);
+            if (rc >= 0) psEccClearKey(&key);
+            c.nontrivial(fmt("der:keyprefix:%s:%zu", ox::curve_name(k->c), L));
+            VF_CHECK(rc < 0, "ecc-truncated-key-accepted", "psEccParsePrivKey accepted a %zu/%zu byte prefix of %s", L, der.size(), k->name.c_str());
+        }
+        c.sample(fmt("der all %zu private-key prefixes curve=%s", der.size(), ox::curve_name(k->c)));
+        return;
+    }
     if (mode == 0) {
         // every proper prefix of the valid encoding; parse errors are cheap, so all of them in one case
         B der = der_sig(sg);
